@@ -272,6 +272,21 @@ pub fn gen_queries(rng: &mut Rng, p: &FriParams) -> Vec<u128> {
     } as usize;
     let mut q = rng.distinct_sorted(k, n);
     let cs0 = 1u128 << p.steps.get(1).cloned().unwrap_or(0);
+    if rng.chance(1, 6) {
+        // nothing but whole first-layer cosets (1..=3 of them): the first inner layer then needs no
+        // sibling leaf at all, its authentication nodes are all that binds it
+        let nc = (n / cs0).max(1);
+        let kc = rng.range(1, 3.min(nc as u64)) as usize;
+        let cosets = rng.distinct_sorted(kc, nc);
+        let mut q: Vec<u128> = vec![];
+        for c in cosets {
+            q.extend(c * cs0..(c + 1) * cs0);
+        }
+        q.retain(|x| *x < n);
+        q.sort();
+        q.dedup();
+        return q;
+    }
     match rng.below(5) {
         0 => {
             // two queries in one coset
